@@ -211,10 +211,11 @@ structure ViewRel (cfg : Cfg) (gen : Nat → Bytes) (nid : Nat) (s : Sess) (v : 
   abs0 : cfg.abs = 0 → s.data.abs = none
   idle : v.idle = if s.idleT > 0 then some s.idleT.toNat else none
   issued : Issued gen nid s.id
+  ctx : v.ctx = s.hasCtx
 
 theorem ViewRel.mono {cfg : Cfg} {gen : Nat → Bytes} {n m : Nat} {s : Sess} {v : View}
     (h : ViewRel cfg gen n s v) (hnm : n ≤ m) : ViewRel cfg gen m s v :=
-  ⟨h.id, h.data, h.nodup, h.fresh, h.abs, h.abs0, h.idle, h.issued.mono hnm⟩
+  ⟨h.id, h.data, h.nodup, h.fresh, h.abs, h.abs0, h.idle, h.issued.mono hnm, h.ctx⟩
 
 /-- the reply only ever carries issued ids -/
 structure OutOK (gen : Nat → Bytes) (c : RCtx) : Prop where
@@ -401,7 +402,7 @@ theorem save_sim {cfg : Cfg} {gen : Nat → Bytes} (hw : WF cfg gen) {c : RCtx} 
     simp only
     rw [hv.id, hv.data, hv.abs hnd]
     exact this
-  · refine ⟨hv.id, hv.data, hv.nodup, hv.fresh, hv.abs, hv.abs0, ?_, hv.issued⟩
+  · refine ⟨hv.id, hv.data, hv.nodup, hv.fresh, hv.abs, hv.abs0, ?_, hv.issued, hv.ctx⟩
     simp only [saveTTL]
     have hi := hw.idle
     by_cases h : s.idleT ≤ 0
@@ -415,7 +416,7 @@ theorem destroy_sim {cfg : Cfg} {gen : Nat → Bytes} (hw : WF cfg gen) {c : RCt
     ViewRel cfg gen c.st.nid (sessDestroy cfg c s).2 { v with data := [], destroyed := true } := by
   rw [sessDestroy_st, sessDestroy_snd, hv.id]
   refine ⟨strel_del hst (issued_ne_nil hw hv.issued), ?_⟩
-  exact ⟨rfl, rfl, trivial, hv.fresh, by intro h; simp at h, fun _ => rfl, hv.idle, hv.issued⟩
+  exact ⟨rfl, rfl, trivial, hv.fresh, by intro h; simp at h, fun _ => rfl, hv.idle, hv.issued, hv.ctx⟩
 
 theorem regenerate_sim {cfg : Cfg} {gen : Nat → Bytes} (hw : WF cfg gen) {c : RCtx} {r : SReq} {s : Sess} {v : View}
     (hst : StRel cfg gen c.st r.s) (hv : ViewRel cfg gen c.st.nid s v) :
@@ -427,7 +428,7 @@ theorem regenerate_sim {cfg : Cfg} {gen : Nat → Bytes} (hw : WF cfg gen) {c : 
   · have h1 := strel_del hst (issued_ne_nil hw hv.issued)
     have h2 := strel_newid h1
     simpa using h2
-  · exact ⟨rfl, hv.data, hv.nodup, rfl, hv.abs, hv.abs0, hv.idle, ⟨c.st.nid, by omega, rfl⟩⟩
+  · exact ⟨rfl, hv.data, hv.nodup, rfl, hv.abs, hv.abs0, hv.idle, ⟨c.st.nid, by omega, rfl⟩, hv.ctx⟩
 
 theorem reset_sim {cfg : Cfg} {gen : Nat → Bytes} (hw : WF cfg gen) {c : RCtx} {r : SReq} {s : Sess} {v : View}
     (hst : StRel cfg gen c.st r.s) (hv : ViewRel cfg gen c.st.nid s v) :
@@ -435,15 +436,110 @@ theorem reset_sim {cfg : Cfg} {gen : Nat → Bytes} (hw : WF cfg gen) {c : RCtx}
       { r.s with sessions := erase r.s.sessions v.id, issued := (List.range (c.st.nid + 1)).map gen } ∧
     ViewRel cfg gen (c.st.nid + 1) (sessReset cfg gen c s).2
       { id := gen c.st.nid, data := [], fresh := true,
-        abs := if cfg.abs > 0 then some (r.s.now + cfg.abs) else none } := by
+        abs := if cfg.abs > 0 then some (r.s.now + cfg.abs) else none, ctx := v.ctx } := by
   rw [sessReset_st, sessReset_snd, hv.id]
   constructor
   · have h1 := strel_del hst (issued_ne_nil hw hv.issued)
     have h2 := strel_newid h1
     simpa using h2
-  · refine ⟨rfl, rfl, trivial, rfl, ?_, ?_, by simp, ⟨c.st.nid, by omega, rfl⟩⟩
+  · refine ⟨rfl, rfl, trivial, rfl, ?_, ?_, by simp, ⟨c.st.nid, by omega, rfl⟩, hv.ctx⟩
     · intro _; simp [hst.now]
     · intro h0; simp [h0]
+
+/-! ### what the request presents -/
+
+/-- the request context of the model against the abstract request state: cookie / header / query as the
+    request (still) presents them, and the id a lookup of this request generated (`Locals`) -/
+def CtxRel (c : RCtx) (r : SReq) : Prop :=
+  c.ck = r.pres.ck ∧ c.hd = r.pres.hd ∧ c.qr = r.pres.qr ∧ c.locals = r.genId
+
+theorem CtxRel.of_eq {c c' : RCtx} {r r' : SReq} (h : CtxRel c r) (h1 : c'.ck = c.ck) (h2 : c'.hd = c.hd)
+    (h3 : c'.qr = c.qr) (h4 : c'.locals = c.locals) (hp : r'.pres = r.pres) (hg : r'.genId = r.genId) :
+    CtxRel c' r' := by
+  obtain ⟨a1, a2, a3, a4⟩ := h
+  exact ⟨by rw [h1, hp]; exact a1, by rw [h2, hp]; exact a2, by rw [h3, hp]; exact a3, by rw [h4, hg]; exact a4⟩
+
+theorem presented_eq (cfg : Cfg) (c : RCtx) (p : Pres) (h1 : c.ck = p.ck) (h2 : c.hd = p.hd) (h3 : c.qr = p.qr) :
+    getSessionID cfg c = presentedId cfg p := by
+  unfold getSessionID presentedId
+  rw [h1, h2, h3]
+  by_cases hck : p.ck = []
+  · simp only [hck, ne_eq, not_true_eq_false, if_false]
+    cases cfg.source <;> simp
+  · simp [hck]
+
+theorem CtxRel.lookupId {cfg : Cfg} {c : RCtx} {r : SReq} (h : CtxRel c r) : lookupId cfg c = r.lookupId cfg := by
+  unfold C15.lookupId SReq.lookupId
+  rw [h.2.2.2]
+  cases r.genId with
+  | some g => rfl
+  | none => exact presented_eq cfg c r.pres h.1 h.2.1 h.2.2.1
+
+theorem delSession_ctx {cfg : Cfg} {c : RCtx} {r r' : SReq} {s : Sess} (h : CtxRel c r)
+    (hp : r'.pres = if s.hasCtx then withdraw cfg r.pres else r.pres) (hg : r'.genId = r.genId) :
+    CtxRel (delSession cfg c s) r' := by
+  obtain ⟨a1, a2, a3, a4⟩ := h
+  unfold delSession
+  cases hc : s.hasCtx with
+  | false =>
+    simp only [hc, Bool.false_eq_true, if_false] at hp ⊢
+    simp only [Bool.not_false, if_true]
+    exact ⟨by rw [hp]; exact a1, by rw [hp]; exact a2, by rw [hp]; exact a3, by rw [hg]; exact a4⟩
+  | true =>
+    simp only [hc, if_true] at hp
+    simp only [Bool.not_true, Bool.false_eq_true, if_false]
+    unfold withdraw at hp
+    by_cases hsrc : cfg.source = .header
+    · simp only [hsrc, if_true] at hp ⊢
+      exact ⟨by rw [hp]; exact a1, by rw [hp], by rw [hp]; exact a3, by rw [hg]; exact a4⟩
+    · simp only [hsrc, if_false] at hp ⊢
+      exact ⟨by rw [hp], by rw [hp]; exact a2, by rw [hp]; exact a3, by rw [hg]; exact a4⟩
+
+theorem sessDestroy_ctx {cfg : Cfg} {c : RCtx} {r r' : SReq} {s : Sess} (h : CtxRel c r)
+    (hp : r'.pres = if s.hasCtx then withdraw cfg r.pres else r.pres) (hg : r'.genId = r.genId) :
+    CtxRel (sessDestroy cfg c s).1 r' := by
+  unfold sessDestroy
+  exact delSession_ctx (c := { c with st := c.st.del s.id }) (r := r) h hp hg
+
+theorem sessReset_ctx {cfg : Cfg} {gen : Nat → Bytes} {c : RCtx} {r r' : SReq} {s : Sess} (h : CtxRel c r)
+    (hp : r'.pres = if s.hasCtx then withdraw cfg r.pres else r.pres) (hg : r'.genId = r.genId) :
+    CtxRel (sessReset cfg gen c s).1 r' := by
+  have h0 := delSession_ctx (cfg := cfg) (c := { c with st := c.st.del s.id }) (r := r) (r' := r') (s := s) h hp hg
+  unfold sessReset
+  exact ⟨by simpa [newID] using h0.1, by simpa [newID] using h0.2.1, by simpa [newID] using h0.2.2.1,
+    by simpa [newID] using h0.2.2.2⟩
+
+theorem sessRegenerate_ctx {gen : Nat → Bytes} {c : RCtx} {r r' : SReq} (s : Sess) (h : CtxRel c r)
+    (hp : r'.pres = r.pres) (hg : r'.genId = r.genId) : CtxRel (sessRegenerate gen c s).1 r' := by
+  obtain ⟨b1, b2, b3, b4⟩ := sessRegenerate_same gen c s
+  exact h.of_eq b1 b2 b3 b4 hp hg
+
+theorem sessSave_ctx {cfg : Cfg} {c : RCtx} {r r' : SReq} {s : Sess} (h : CtxRel c r)
+    (hp : r'.pres = if s.hasCtx then represent cfg r.pres s.id else r.pres) (hg : r'.genId = r.genId) :
+    CtxRel (sessSave cfg c s).1 r' := by
+  obtain ⟨a1, a2, a3, a4⟩ := h
+  have key : ∀ s' : Sess, s'.id = s.id → s'.hasCtx = s.hasCtx →
+      CtxRel ({ setSession cfg c s' with st := (setSession cfg c s').st.set s'.id s'.data s'.idleT.toNat } : RCtx) r' := by
+    intro s' hid hcx
+    unfold setSession
+    cases hc : s.hasCtx with
+    | false =>
+      simp only [hcx, hc, Bool.not_false, if_true]
+      simp only [hc, Bool.false_eq_true, if_false] at hp
+      exact ⟨by rw [hp]; exact a1, by rw [hp]; exact a2, by rw [hp]; exact a3, by rw [hg]; exact a4⟩
+    | true =>
+      simp only [hcx, hc, Bool.not_true, Bool.false_eq_true, if_false]
+      simp only [hc, if_true] at hp
+      unfold represent at hp
+      by_cases hsrc : cfg.source = .header
+      · simp only [hsrc, if_true] at hp ⊢
+        exact ⟨by rw [hp]; exact a1, by rw [hp, hid], by rw [hp]; exact a3, by rw [hg]; exact a4⟩
+      · simp only [hsrc, if_false] at hp ⊢
+        exact ⟨by rw [hp]; exact a1, by rw [hp]; exact a2, by rw [hp]; exact a3, by rw [hg]; exact a4⟩
+  unfold sessSave
+  split
+  · exact key _ rfl rfl
+  · exact key _ rfl rfl
 
 /-! ### loading a session -/
 
@@ -556,23 +652,24 @@ theorem out_acquire {gen : Nat → Bytes} {c : RCtx} (h : OutOK gen c) : OutOK g
   exact ⟨by intro v hv; rw [h5] at hv; rw [h1]; exact h.ck v hv, by intro v hv; rw [h6] at hv; rw [h1]; exact h.hd v hv⟩
 
 /-- what a simulation step hands on: related storage and table, the generator outputs still expected,
-    the Session object against its view, the reply, and an abstract request state that changed only in
-    its table and its expected outputs -/
+    the Session object against its view, the reply, what the request presents, and an abstract request
+    state whose handler variables are untouched -/
 structure Sim (cfg : Cfg) (gen : Nat → Bytes) (G : List Bytes) (c' : RCtx) (s' : Sess) (r r' : SReq) (v : View) :
     Prop where
   st : StRel cfg gen c'.st r'.s
   gens : r'.gens = G
   view : ViewRel cfg gen c'.st.nid s' v
   out : OutOK gen c'
-  frame : r' = { r with s := r'.s, gens := r'.gens }
+  req : CtxRel c' r'
+  frame : r' = { r with s := r'.s, gens := r'.gens, pres := r'.pres, genId := r'.genId }
 
 theorem Sim.fields {cfg : Cfg} {gen : Nat → Bytes} {G : List Bytes} {c' : RCtx} {s' : Sess} {r r' : SReq} {v : View}
     (h : Sim cfg gen G c' s' r r' v) :
-    r'.mw = r.mw ∧ r'.mwDestroyed = r.mwDestroyed ∧ r'.cur = r.cur ∧ r'.loaded = r.loaded := by
+    r'.mw = r.mw ∧ r'.mwDestroyed = r.mwDestroyed ∧ r'.cur = r.cur := by
   have hf := h.frame
-  obtain ⟨rs', rg', rmw', rmd', rcur', rl'⟩ := r'
+  obtain ⟨rs', rg', rp', rgi', rmw', rmd', rcur'⟩ := r'
   simp only [SReq.mk.injEq] at hf
-  exact ⟨hf.2.2.1, hf.2.2.2.1, hf.2.2.2.2.1, hf.2.2.2.2.2⟩
+  exact ⟨hf.2.2.2.2.1, hf.2.2.2.2.2.1, hf.2.2.2.2.2.2⟩
 
 theorem lookupId_of_locals_none {cfg : Cfg} {c : RCtx} (h : c.locals = none) : lookupId cfg c = getSessionID cfg c := by
   simp [lookupId, h]
@@ -584,31 +681,44 @@ theorem absExpired_iff (now : Nat) (d : SData) :
   | none => rfl
   | some a => by_cases h : a < now <;> simp [h] <;> omega
 
-/-- `getSession` (first load of a request) against the abstract `loadView` -/
+/-- the abstract request state after a lookup that made the server generate an id -/
+def genR (gen : Nat → Bytes) (G : List Bytes) (n : Nat) (r : SReq) (sessions : List (Bytes × SEntry)) : SReq :=
+  { r with gens := G, s := { r.s with sessions := sessions, issued := (List.range (n + 1)).map gen },
+           genId := some (gen n) }
+
+/-- … and after the lookup of a live id past its absolute deadline (the implicit `Reset`) -/
+def resetR (cfg : Cfg) (gen : Nat → Bytes) (G : List Bytes) (n : Nat) (r : SReq) (p : Bytes) : SReq :=
+  { r with gens := G, s := { r.s with sessions := erase r.s.sessions p, issued := (List.range (n + 1)).map gen },
+           pres := withdraw cfg r.pres }
+
+def preResetR (cfg : Cfg) (r : SReq) (p : Bytes) : SReq :=
+  { r with s := { r.s with sessions := erase r.s.sessions p }, pres := withdraw cfg r.pres }
+
+/-- `getSession` — the first or a later lookup of a request — against the abstract `loadView` -/
 theorem load_sim {cfg : Cfg} {gen : Nat → Bytes} (hw : WF cfg gen) {c : RCtx} {r : SReq} {G : List Bytes}
-    (hst : StRel cfg gen c.st r.s) (hloc : c.locals = none) (hout : OutOK gen c)
+    (hst : StRel cfg gen c.st r.s) (hctx : CtxRel c r) (hout : OutOK gen c)
     (hle : r.gens = gensBetween gen c.st.nid (getSession cfg gen c).1.st.nid ++ G) :
-    ∃ r' v, loadView cfg r (getSessionID cfg c) = .ok (r', v) ∧
+    ∃ r' v, loadView cfg r = .ok (r', v) ∧
       Sim cfg gen G (getSession cfg gen c).1 (getSession cfg gen c).2 r r' v ∧
-      (getSession cfg gen c).2.hasCtx = true ∧ c.st.nid ≤ (getSession cfg gen c).1.st.nid ∧
-      v.destroyed = false := by
-  have hlid := lookupId_of_locals_none (cfg := cfg) hloc
+      c.st.nid ≤ (getSession cfg gen c).1.st.nid ∧ v.destroyed = false ∧ v.ctx = true := by
+  have hlid := hctx.lookupId (cfg := cfg)
+  have hmine : r.genId.isSome = c.locals.isSome := by rw [hctx.2.2.2]
   cases hget : c.st.get (lookupId cfg c) with
   | none =>
     rw [getSession_none hget] at hle ⊢
     rw [hlid] at hget
     -- the context after the generator call and the pool access
-    have hst1 : StRel cfg gen { c.st with nid := c.st.nid + 1 } { r.s with issued := (List.range (c.st.nid + 1)).map gen } :=
-      strel_newid hst
-    have hacq := strel_acquire (c := afterNew gen c) (cfg := cfg) (gen := gen)
-      (s := { r.s with issued := (List.range (c.st.nid + 1)).map gen }) (by rw [afterNew_st]; exact hst1)
     have hsp := acquire_spec (afterNew gen c)
     have hfl := acquire_fields (afterNew gen c)
     have hnid1 : (acquire (afterNew gen c)).1.st.nid = c.st.nid + 1 := by
       rw [hsp.1, afterNew_st]
     have hnow1 : (acquire (afterNew gen c)).1.st.now = c.st.now := by
       rw [hsp.2.2.1, afterNew_st]
-    rw [hacq.2] at hle ⊢
+    have hpe : (acquire (afterNew gen c)).2 = SData.empty := by
+      rcases hsp.2.2.2.2 with h1 | h1
+      · exact h1
+      · rw [afterNew_st] at h1; exact hst.inv.2 _ h1
+    rw [hpe] at hle ⊢
     have hout1 : OutOK gen (acquire (afterNew gen c)).1 := by
       refine ⟨?_, ?_⟩
       · intro v hv
@@ -619,7 +729,6 @@ theorem load_sim {cfg : Cfg} {gen : Nat → Bytes} (hw : WF cfg gen) {c : RCtx} 
         rw [hfl.2.2.2.2.2, (afterNew_out gen c).2] at hv
         rw [hnid1]
         exact (hout.hd v hv).mono (Nat.le_succ _)
-    -- the model's result
     have hres : finishLoad cfg gen (acquire (afterNew gen c)).1
           { id := gen c.st.nid, data := SData.empty, fresh := true } =
         ((acquire (afterNew gen c)).1,
@@ -633,24 +742,42 @@ theorem load_sim {cfg : Cfg} {gen : Nat → Bytes} (hw : WF cfg gen) {c : RCtx} 
     simp only at hle ⊢
     have hg : r.gens = gen c.st.nid :: G := by
       rw [hnid1, gensBetween_succ] at hle; exact hle
-    -- the abstract side
-    have hview : ∀ now : Nat, now = c.st.now → ViewRel cfg gen (c.st.nid + 1)
+    have hview : ViewRel cfg gen (c.st.nid + 1)
         { id := gen c.st.nid, fresh := true,
           data := { kv := [], abs := if cfg.abs > 0 then some (c.st.now + cfg.abs) else none } }
         { id := gen c.st.nid, data := [], fresh := true,
-          abs := if cfg.abs > 0 then some (now + cfg.abs) else none } := by
-      intro now hnow
-      refine ⟨rfl, rfl, trivial, rfl, ?_, ?_, by simp, ⟨c.st.nid, by omega, rfl⟩⟩
-      · intro _; simp [hnow]
+          abs := if cfg.abs > 0 then some (r.s.now + cfg.abs) else none } := by
+      refine ⟨rfl, rfl, trivial, rfl, ?_, ?_, by simp, ⟨c.st.nid, by omega, rfl⟩, rfl⟩
+      · intro _; simp [hst.now]
       · intro h0; simp [h0]
-    cases hl : (if getSessionID cfg c = [] then none else lookup r.s.sessions (getSessionID cfg c)) with
+    have hcx : ∀ ss, CtxRel (acquire (afterNew gen c)).1 (genR gen G c.st.nid r ss) := by
+      intro ss
+      obtain ⟨a1, a2, a3, _⟩ := hctx
+      refine ⟨?_, ?_, ?_, ?_⟩
+      · rw [hfl.1]; simpa [afterNew, newID, genR] using a1
+      · rw [hfl.2.1]; simpa [afterNew, newID, genR] using a2
+      · rw [hfl.2.2.1]; simpa [afterNew, newID, genR] using a3
+      · rw [hfl.2.2.2.1]; simp [afterNew, newID, genR]
+    have hstA : ∀ ss, StRel cfg gen c.st { r.s with sessions := ss } →
+        StRel cfg gen (acquire (afterNew gen c)).1.st (genR gen G c.st.nid r ss).s := by
+      intro ss h2
+      have h3 := strel_newid h2
+      exact (strel_acquire (c := afterNew gen c) (cfg := cfg) (gen := gen)
+        (s := { r.s with sessions := ss, issued := (List.range (c.st.nid + 1)).map gen })
+        (by rw [afterNew_st]; exact h3)).1
+    cases hl : (if r.lookupId cfg = [] then none else lookup r.s.sessions (r.lookupId cfg)) with
     | none =>
-      have hlv : loadView cfg r (getSessionID cfg c) = freshView cfg r := by
-        unfold loadView; rw [hl]
-      refine ⟨_, _, hlv.trans (freshView_ok hw hst.issued hg), ?_, by first | rfl | trivial, by rw [hnid1]; omega, rfl⟩
-      · exact ⟨hacq.1, rfl, by rw [hnid1]; exact hview _ hst.now, hout1, rfl⟩
+      have hfv := freshView_ok hw hst.issued hg (r := r)
+      have hlv : loadView cfg r = .ok (genR gen G c.st.nid r r.s.sessions,
+          { id := gen c.st.nid, data := [], fresh := true,
+            abs := if cfg.abs > 0 then some (r.s.now + cfg.abs) else none }) := by
+        unfold loadView
+        simp only [hl, hfv, bind, Except.bind, pure, Except.pure]
+        rfl
+      refine ⟨_, _, hlv, ?_, by rw [hnid1]; omega, rfl, rfl⟩
+      exact ⟨hstA _ hst, rfl, by rw [hnid1]; exact hview, hout1, hcx _, rfl⟩
     | some se =>
-      have hp : getSessionID cfg c ≠ [] := by
+      have hp : r.lookupId cfg ≠ [] := by
         intro h; simp [h] at hl
       simp only [hp, if_false] at hl
       have hdead : ¬ c.st.now < se.idleDeadline := by
@@ -660,24 +787,21 @@ theorem load_sim {cfg : Cfg} {gen : Nat → Bytes} (hw : WF cfg gen) {c : RCtx} 
         rw [hr.live] at this
         simp at this
         omega
-      have hnl : se.live r.s.now = false := by
-        simp only [SEntry.live, hst.now]
-        have : decide (c.st.now < se.idleDeadline) = false := by simpa using hdead
-        rw [this]; rfl
-      have hst2 : StRel cfg gen c.st { r.s with sessions := erase r.s.sessions (getSessionID cfg c) } :=
+      have hidle : decide (r.s.now < se.idleDeadline) = false := by
+        rw [hst.now]; simpa using hdead
+      have hst2 : StRel cfg gen c.st { r.s with sessions := erase r.s.sessions (r.lookupId cfg) } :=
         strel_erase_dead hst (by intro se' hs'; rw [hl] at hs'; cases hs'; exact hdead)
-      have hst3 := strel_newid hst2
-      have hacq2 := strel_acquire (c := afterNew gen c) (cfg := cfg) (gen := gen)
-        (s := { r.s with sessions := erase r.s.sessions (getSessionID cfg c),
-                         issued := (List.range (c.st.nid + 1)).map gen }) (by rw [afterNew_st]; exact hst3)
-      have hlv : loadView cfg r (getSessionID cfg c) =
-          freshView cfg { r with s := { r.s with sessions := erase r.s.sessions (getSessionID cfg c) } } := by
+      have hfv := freshView_ok hw (r := { r with s := { r.s with sessions := erase r.s.sessions (r.lookupId cfg) } })
+        hst.issued hg
+      have hlv : loadView cfg r = .ok (genR gen G c.st.nid r (erase r.s.sessions (r.lookupId cfg)),
+          { id := gen c.st.nid, data := [], fresh := true,
+            abs := if cfg.abs > 0 then some (r.s.now + cfg.abs) else none }) := by
         unfold loadView
-        simp only [hp, if_false, hl, hnl]
+        simp only [hp, if_false, hl, hidle, Bool.false_and, Bool.false_eq_true, hfv, bind, Except.bind, pure,
+          Except.pure]
         rfl
-      refine ⟨_, _, hlv.trans (freshView_ok (r := { r with s := { r.s with sessions := erase r.s.sessions (getSessionID cfg c) } })
-          hw hst.issued hg), ?_, by first | rfl | trivial, by rw [hnid1]; omega, rfl⟩
-      · exact ⟨hacq2.1, rfl, by rw [hnid1]; exact hview _ hst.now, hout1, rfl⟩
+      refine ⟨_, _, hlv, ?_, by rw [hnid1]; omega, rfl, rfl⟩
+      exact ⟨hstA _ hst2, rfl, by rw [hnid1]; exact hview, hout1, hcx _, rfl⟩
   | some blob =>
     rw [getSession_some hget] at hle ⊢
     rw [hlid] at hget hle ⊢
@@ -685,79 +809,117 @@ theorem load_sim {cfg : Cfg} {gen : Nat → Bytes} (hw : WF cfg gen) {c : RCtx} 
     obtain ⟨se, hs, hr⟩ := hst.fwd _ e he hlive
     have hacq := strel_acquire (cfg := cfg) (gen := gen) (c := c) hst
     have hsp := acquire_spec c
+    have hfl := acquire_fields c
     have hout1 := out_acquire hout
-    rw [hacq.2, hloc] at hle ⊢
-    simp only [Option.isSome_none] at hle ⊢
+    rw [hacq.2] at hle ⊢
     have hnd : NoDupKeys blob.kv := by rw [← hblob]; exact hr.nodup
     rw [merge_empty_of_nodup hnd] at hle ⊢
-    have hiss : Issued gen (acquire c).1.st.nid (getSessionID cfg c) := by
+    have hiss : Issued gen (acquire c).1.st.nid (r.lookupId cfg) := by
       rw [hsp.1]; exact hst.inv.1 _ (lookup_some_mem he)
-    have hv0 : ViewRel cfg gen (acquire c).1.st.nid { id := getSessionID cfg c, data := blob, fresh := false }
-        { id := getSessionID cfg c, data := se.data, fresh := false, abs := se.absDeadline } := by
-      refine ⟨rfl, by rw [hr.data, hblob], hnd, rfl, by intro _; rw [hr.abs, hblob], ?_, by simp, hiss⟩
-      intro h0; rw [← hblob]; exact hr.abs0 h0
-    have hidle : decide (c.st.now < se.idleDeadline) = true := by
-      rw [← hr.live]; exact hlive
-    have hlive_eq : se.live r.s.now = !(absExpired c.st.now blob) := by
-      rw [absExpired_iff]
-      simp only [SEntry.live, hidle, Bool.true_and, hr.abs, hblob, hst.now, Bool.not_not]
-      cases blob.abs <;> rfl
-    cases hexp : absExpired c.st.now blob with
-    | false =>
-      have hres : finishLoad cfg gen (acquire c).1 { id := getSessionID cfg c, data := blob, fresh := false } =
-          ((acquire c).1, { id := getSessionID cfg c, data := blob, fresh := false }) := by
-        unfold finishLoad
-        simp [hsp.2.2.1, hexp]
-      rw [hres] at hle ⊢
-      have hlv : loadView cfg r (getSessionID cfg c) =
-          .ok (r, { id := getSessionID cfg c, data := se.data, fresh := false, abs := se.absDeadline }) := by
-        unfold loadView
-        simp only [hp, if_false, hs]
-        rw [hlive_eq, hexp]
-        rfl
-      have hg : r.gens = G := by
-        rw [hsp.1, gensBetween_self] at hle; exact hle
-      exact ⟨r, _, hlv, ⟨hacq.1, hg, hv0, hout1, rfl⟩, by first | rfl | trivial,
-        by rw [hsp.1]; exact Nat.le_refl _, rfl⟩
-    | true =>
-      have habs : cfg.abs > 0 := by
-        cases h0 : cfg.abs with
-        | zero =>
-          have := hr.abs0 h0
-          rw [hblob] at this
-          simp [absExpired, this] at hexp
-        | succ n => omega
-      have hres : finishLoad cfg gen (acquire c).1 { id := getSessionID cfg c, data := blob, fresh := false } =
-          ((sessReset cfg gen (acquire c).1 { id := getSessionID cfg c, data := blob, fresh := false }).1,
-           (sessReset cfg gen (acquire c).1 { id := getSessionID cfg c, data := blob, fresh := false }).2) := by
-        unfold finishLoad
-        simp only [Bool.false_and, Bool.false_eq_true, if_false, hsp.2.2.1, hexp, if_true]
-        rw [sessReset_snd, sessReset_st]
-        simp [habs, hsp.2.2.1]
-      rw [hres] at hle ⊢
-      simp only at hle ⊢
-      have hrs := reset_sim hw (r := r) hacq.1 hv0
-      rw [sessReset_st] at hle
-      simp only at hle
-      have hg : r.gens = gen c.st.nid :: G := by
-        rw [hsp.1, gensBetween_succ] at hle; exact hle
-      have hlv : loadView cfg r (getSessionID cfg c) =
-          freshView cfg { r with s := { r.s with sessions := erase r.s.sessions (getSessionID cfg c) } } := by
-        unfold loadView
-        simp only [hp, if_false, hs]
-        rw [hlive_eq, hexp]
-        rfl
-      refine ⟨_, _, hlv.trans (freshView_ok (r := { r with s := { r.s with sessions := erase r.s.sessions (getSessionID cfg c) } })
-          hw hst.issued hg), ?_, ?_, ?_, rfl⟩
-      · refine ⟨?_, ?_, ?_, sessReset_out hout1 _, rfl⟩
+    have hidle : decide (r.s.now < se.idleDeadline) = true := by
+      rw [hst.now, ← hr.live]; exact hlive
+    have habsOK : se.absOK r.s.now = !(absExpired c.st.now blob) := by
+      unfold SEntry.absOK
+      rw [absExpired_iff, hr.abs, hblob, hst.now, Bool.not_not]
+      try (cases blob.abs <;> rfl)
+    have hcx1 : CtxRel (acquire c).1 r := hctx.of_eq hfl.1 hfl.2.1 hfl.2.2.1 hfl.2.2.2.1 rfl rfl
+    cases hloc : c.locals with
+    | some i =>
+      -- the id was generated by an earlier lookup of this request
+      have hm : r.genId.isSome = true := by rw [hmine, hloc]; rfl
+      simp only [hloc, Option.isSome_some] at hle ⊢
+      by_cases ha : cfg.abs > 0
+      · have hres : finishLoad cfg gen (acquire c).1 { id := r.lookupId cfg, data := blob, fresh := true } =
+            ((acquire c).1, Sess.mk (r.lookupId cfg) { blob with abs := some (c.st.now + cfg.abs) } true 0 true) := by
+          unfold finishLoad
+          simp [ha, hsp.2.2.1]
+        rw [hres] at hle ⊢
+        have hlv : loadView cfg r = .ok (r, View.mk (r.lookupId cfg) se.data true (some (r.s.now + cfg.abs)) none false true) := by
+          unfold loadView
+          simp only [hp, if_false, hs, hidle, hm, ha, decide_true, Bool.and_self, Bool.true_or, if_true]
+        have hg : r.gens = G := by
+          rw [hsp.1, gensBetween_self] at hle; exact hle
+        refine ⟨r, _, hlv, ⟨hacq.1, hg, ?_, hout1, hcx1, rfl⟩, by rw [hsp.1]; exact Nat.le_refl _, rfl, rfl⟩
+        refine ⟨rfl, by rw [hr.data, hblob], hnd, rfl, by intro _; simp [hst.now], ?_, by simp, hiss, rfl⟩
+        intro h0; omega
+      · have ha0 : cfg.abs = 0 := by omega
+        have hbn : blob.abs = none := by rw [← hblob]; exact hr.abs0 ha0
+        have hres : finishLoad cfg gen (acquire c).1 { id := r.lookupId cfg, data := blob, fresh := true } =
+            ((acquire c).1, { id := r.lookupId cfg, data := blob, fresh := true }) := by
+          unfold finishLoad
+          simp [ha, absExpired, hbn]
+        rw [hres] at hle ⊢
+        have hlv : loadView cfg r = .ok (r, View.mk (r.lookupId cfg) se.data true se.absDeadline none false true) := by
+          unfold loadView
+          have hn : se.absDeadline = none := by rw [hr.abs, hblob]; exact hbn
+          have hok : se.absOK r.s.now = true := by simp [SEntry.absOK, hn]
+          simp only [hp, if_false, hs, hidle, hm, ha, decide_false, Bool.and_false, Bool.false_or, hok,
+            Bool.and_self, if_true, Bool.false_eq_true, if_false]
+        have hg : r.gens = G := by
+          rw [hsp.1, gensBetween_self] at hle; exact hle
+        refine ⟨r, _, hlv, ⟨hacq.1, hg, ?_, hout1, hcx1, rfl⟩, by rw [hsp.1]; exact Nat.le_refl _, rfl, rfl⟩
+        refine ⟨rfl, by rw [hr.data, hblob], hnd, rfl, by intro _; rw [hr.abs, hblob], ?_, by simp, hiss, rfl⟩
+        intro _; exact hbn
+    | none =>
+      have hm : r.genId.isSome = false := by rw [hmine, hloc]; rfl
+      simp only [hloc, Option.isSome_none] at hle ⊢
+      have hv0 : ViewRel cfg gen (acquire c).1.st.nid { id := r.lookupId cfg, data := blob, fresh := false }
+          { id := r.lookupId cfg, data := se.data, fresh := false, abs := se.absDeadline } := by
+        refine ⟨rfl, by rw [hr.data, hblob], hnd, rfl, by intro _; rw [hr.abs, hblob], ?_, by simp, hiss, rfl⟩
+        intro h0; rw [← hblob]; exact hr.abs0 h0
+      cases hexp : absExpired c.st.now blob with
+      | false =>
+        have hres : finishLoad cfg gen (acquire c).1 { id := r.lookupId cfg, data := blob, fresh := false } =
+            ((acquire c).1, { id := r.lookupId cfg, data := blob, fresh := false }) := by
+          unfold finishLoad
+          simp [hsp.2.2.1, hexp]
+        rw [hres] at hle ⊢
+        have hlv : loadView cfg r =
+            .ok (r, { id := r.lookupId cfg, data := se.data, fresh := false, abs := se.absDeadline }) := by
+          unfold loadView
+          simp only [hp, if_false, hs, hidle, hm, habsOK, hexp, Bool.false_and, Bool.false_or, Bool.not_false,
+            Bool.and_self, if_true, Bool.false_eq_true]
+        have hg : r.gens = G := by
+          rw [hsp.1, gensBetween_self] at hle; exact hle
+        exact ⟨r, _, hlv, ⟨hacq.1, hg, hv0, hout1, hcx1, rfl⟩, by rw [hsp.1]; exact Nat.le_refl _, rfl, rfl⟩
+      | true =>
+        have habs : cfg.abs > 0 := by
+          cases h0 : cfg.abs with
+          | zero =>
+            have := hr.abs0 h0
+            rw [hblob] at this
+            simp [absExpired, this] at hexp
+          | succ n => omega
+        have hres : finishLoad cfg gen (acquire c).1 { id := r.lookupId cfg, data := blob, fresh := false } =
+            ((sessReset cfg gen (acquire c).1 { id := r.lookupId cfg, data := blob, fresh := false }).1,
+             (sessReset cfg gen (acquire c).1 { id := r.lookupId cfg, data := blob, fresh := false }).2) := by
+          unfold finishLoad
+          simp only [Bool.false_and, Bool.false_eq_true, if_false, hsp.2.2.1, hexp, if_true]
+          rw [sessReset_snd, sessReset_st]
+          simp [habs, hsp.2.2.1]
+        rw [hres] at hle ⊢
+        simp only at hle ⊢
+        have hrs := reset_sim hw (r := r) hacq.1 hv0
+        rw [sessReset_st] at hle
+        simp only at hle
+        have hg : r.gens = gen c.st.nid :: G := by
+          rw [hsp.1, gensBetween_succ] at hle; exact hle
+        have hfv := freshView_ok hw (r := preResetR cfg r (r.lookupId cfg)) hst.issued hg
+        simp only [preResetR] at hfv
+        have hlv : loadView cfg r = .ok (resetR cfg gen G c.st.nid r (r.lookupId cfg),
+            View.mk (gen c.st.nid) [] true (if cfg.abs > 0 then some (r.s.now + cfg.abs) else none) none false true) := by
+          unfold loadView
+          simp only [hp, if_false, hs, hidle, hm, habsOK, hexp, Bool.false_and, Bool.false_or, Bool.not_true,
+            Bool.and_false, Bool.false_eq_true, if_true, hfv, bind, Except.bind, pure, Except.pure]
+          rfl
+        refine ⟨_, _, hlv, ⟨?_, rfl, ?_, sessReset_out hout1 _, ?_, rfl⟩, ?_, rfl, rfl⟩
         · have := hrs.1; rw [hsp.1] at this; exact this
-        · rfl
         · have := hrs.2
           rw [sessReset_st]; simp only
           rw [hsp.1] at this ⊢
           exact this
-      · rw [sessReset_snd]
-      · rw [sessReset_st]; simp only; rw [hsp.1]; omega
+        · exact sessReset_ctx (r := r) hcx1 (by simp [resetR]) rfl
+        · rw [sessReset_st]; simp only; rw [hsp.1]; omega
 
 /-! ### handler states -/
 
@@ -772,14 +934,6 @@ def OptViewRel (cfg : Cfg) (gen : Nat → Bytes) (nid : Nat) : Option Sess → O
   | some s, some v => ViewRel cfg gen nid s v
   | _, _ => False
 
-/-- the request as the client sent it is still in place: nothing but context-less sessions so far -/
-structure Untouched (q : Req) (h : HSt) : Prop where
-  ck : h.c.ck = q.ck
-  hd : h.c.hd = q.hd
-  qr : h.c.qr = q.qr
-  locals : h.c.locals = none
-  cur : ∀ s, h.cur = .other s → s.hasCtx = false
-
 /-- the simulation relation between a handler state of the model and the abstract request state;
     `G` = the generator outputs the request will still see -/
 structure Rel (cfg : Cfg) (gen : Nat → Bytes) (G : List Bytes) (q : Req) (h : HSt) (r : SReq) : Prop where
@@ -792,7 +946,7 @@ structure Rel (cfg : Cfg) (gen : Nat → Bytes) (G : List Bytes) (q : Req) (h : 
   viaMw : q.viaMw = h.mw.isSome
   mwCtx : ∀ s, h.mw = some s → s.hasCtx = true
   mwLive : h.destroyed = false → ∀ v, r.mw = some v → v.destroyed = false
-  pre : q.viaMw = false → r.loaded = false → Untouched q h
+  req : CtxRel h.c r
 
 theorem OptViewRel.mono {cfg : Cfg} {gen : Nat → Bytes} {n m : Nat} {a : Option Sess} {b : Option View}
     (h : OptViewRel cfg gen n a b) (hnm : n ≤ m) : OptViewRel cfg gen m a b := by
@@ -809,7 +963,7 @@ theorem Rel.sess_none {cfg : Cfg} {gen : Nat → Bytes} {G : List Bytes} {q : Re
   have hm := hrel.mw
   have hc := hrel.cur
   obtain ⟨c, mw, d, cur⟩ := h
-  obtain ⟨rs, rg, rmw, rmd, rcur, rl⟩ := r
+  obtain ⟨rs, rg, rp, rgi, rmw, rmd, rcur⟩ := r
   simp only [HSt.sess] at hs
   simp only [SReq.view]
   simp only at hm hc
@@ -824,7 +978,7 @@ theorem Rel.sess_some {cfg : Cfg} {gen : Nat → Bytes} {G : List Bytes} {q : Re
   have hm := hrel.mw
   have hc := hrel.cur
   obtain ⟨c, mw, d, cur⟩ := h
-  obtain ⟨rs, rg, rmw, rmd, rcur, rl⟩ := r
+  obtain ⟨rs, rg, rp, rgi, rmw, rmd, rcur⟩ := r
   simp only [HSt.sess] at hs
   simp only [SReq.view]
   simp only at hm hc
